@@ -22,7 +22,7 @@ EXPLANATION = (
     "section spelling on both sides, comment lines numbered 1..n with Lines = n; R8 object lists: every exported index "
     "is written to its list and its object body; R9 presence conditions: every optional attribute (storage location, "
     "data/access type, default, value, limits, description, factor, unit) is written under a positive test of that "
-    "same attribute, bit rate and node id of a DCF whenever set, the file name's suffix selects DCF/EDS when no type is given."
+    "same attribute, bit rate and node id of a DCF whenever set, the file name's suffix selects DCF/EDS when no type is given. R10 no class-level mutable object is mutated in place by instances (each node/client/map/dictionary has its own state)."
 )
 ASSUMPTIONS = [
     "not decided: round trip for random dictionaries; configparser write/read symmetry is the trusted base",
@@ -393,6 +393,10 @@ def run(chk):
         chk.check(bool(l.orelse) and any(isinstance(n, ast.Assign) and src(n) == "doc_type = 'eds'" for n in l.orelse), "R9", f"{OD}:export_od | other names default to EDS", xo.loc(l), "")
     st_ = folder.try_fold(xo.node.body[1].value if False else next((n.value for n in own_nodes(xo.node) if isinstance(n, ast.Assign) and src(n.targets[0]) == "supported_doctypes"), ast.Constant(None)), Scope(xo.mod), None)
     chk.check(st_ is not None and set(st_) == {"eds", "dcf"}, "R9", f"{OD}:export_od | supported document types", xo.loc(), f"{st_}")
+
+    # ------------------------------------------------------------------ R10 instances are independent (shared clause)
+    from . import shared as _shared
+    _shared.isolation(chk, "R10", rels=['canopen/objectdictionary/__init__.py', 'canopen/objectdictionary/eds.py'])
 
 
 def _render(js: ast.JoinedStr, env):
